@@ -138,6 +138,13 @@ def run_shard(shard):
             continue
         rec.count("structures")
         shape, cshape = tuple(b.shape), (None if b.cond_shape is None else tuple(b.cond_shape))
+        if it["kind"] == "spec":
+            exp_shape, exp_c = tuple(S.shape_of(it["spec"])), S.cond_shape_of(it["spec"])
+            rec.evals += 1
+            rec.count("declared_shape_checks")
+            if shape != exp_shape or cshape != (None if exp_c is None else tuple(exp_c)):
+                v("declared_shape", f"{name}: declares shape {shape} / cond_shape {cshape} but was constructed for {exp_shape} / {exp_c}; {it['spec']}", it)
+                continue
         good_c = None if cshape is None else jnp.full(cshape, 0.1)
         avail = [m for m in METHODS if (fwd_ok if m.startswith("transform") else inv_ok)]
         # ---- well-formed calls: declared shape out, scalar log-det
@@ -289,7 +296,9 @@ def run_shard(shard):
             "Stack(shape mismatch)": lambda: B.Stack([A3, A2]), "Stack((2,3) vs (3,2))": lambda: B.Stack([A23, A32]), "Stack(cond mismatch)": lambda: B.Stack([C2, C4]),
             "Partial(index does not fit)": lambda: B.Partial(A3, jnp.array([0, 1]), (5,)), "Partial(slice too long)": lambda: B.Partial(A2, slice(0, 3), (5,)),
             "Partial(bool mask wrong count)": lambda: B.Partial(A2, jnp.array([True, True, True, False]), (4,)), "Partial(int on 2D gives row)": lambda: B.Partial(A2, 0, (3, 3)),
-            "Reshape(element count)": lambda: B.Reshape(A3, (2, 2)), "Reshape(cond element count)": lambda: B.Reshape(C2, (3,), (3,)),
+            "Reshape(element count)": lambda: B.Reshape(A3, (2, 2)), "Reshape(vector to scalar)": lambda: B.Reshape(A3, ()),
+            "Reshape(matrix to scalar)": lambda: B.Reshape(A23, ()), "Reshape(cond to scalar)": lambda: B.Reshape(C2, (3,), ()),
+            "Reshape(to fewer elements)": lambda: B.Reshape(A23, (5,)), "Reshape(cond element count)": lambda: B.Reshape(C2, (3,), (3,)),
             "Reshape(cond for unconditional)": lambda: B.Reshape(A3, (3,), (2,)),
             "Coupling(non-scalar transformer)": lambda: B.Coupling(key, transformer=A3, untransformed_dim=1, dim=3, nn_width=3, nn_depth=1),
             "Coupling(conditional transformer)": lambda: B.Coupling(key, transformer=B.AdditiveCondition(lambda c: c.sum(), (), (2,)), untransformed_dim=1, dim=3, nn_width=3, nn_depth=1),
